@@ -86,7 +86,13 @@ func (fr *Frame) callFn(st *State, site ssa.Instruction, fn *ssa.Function, args 
 		return r
 	}
 	if c := v.lookupContract(fn); c != nil && c.Options["inline"] == "" && !(fr.top && fr.fn == fn) && !v.opaqueNames[fn.Name()] {
-		if v.layerKeyOf(fn.Pkg, c) == v.curLayerKey && len(c.Lets) == 0 {
+		sameLayer := v.layerKeyOf(fn.Pkg, c) == v.curLayerKey
+		if !sameLayer && c.Layer == "" && !v.sigMentionsAbstract(fn) {
+			// a contract over concrete types applies unchanged at an abstract layer when the callee's signature
+			// does not involve any of the layer's abstract types
+			sameLayer = true
+		}
+		if sameLayer && len(c.Lets) == 0 {
 			res = fr.applyContract(st, site, c, fn, args)
 			if fr.top {
 				fr.bindCallResult(st, res)
@@ -819,7 +825,19 @@ func (fr *Frame) ifaceContract(st *State, site ssa.Instruction, iv *IfaceV, cc *
 	}
 	se2 := &SpecEnv{fr: fr, st: st, old: old, vars: vars, pkg: fr.fn.Pkg, fn: fr.fn, ghostLocal: map[string]*Term{}}
 	for _, e := range c.Ensures {
-		st.pc = F.And(st.pc, se2.evalBool(e.E))
+		fact := se2.evalBool(e.E)
+		// "ensures result == <constant>": the call yields the constant itself (keeps later products linear)
+		if rt, isT := result.(*Term); isT && fact.Op == OEq && len(fact.Args) == 2 {
+			if fact.Args[0] == rt && fact.Args[1].IsConst() {
+				result = fact.Args[1]
+				continue
+			}
+			if fact.Args[1] == rt && fact.Args[0].IsConst() {
+				result = fact.Args[0]
+				continue
+			}
+		}
+		st.pc = F.And(st.pc, fact)
 	}
 	v.assume(fmt.Sprintf("assumed contract of interface method (%s).%s: %s", name, cc.Method.Name(), c.Assumed))
 	return result, true
@@ -869,4 +887,49 @@ func (fr *Frame) bindCallResult(st *State, res Value) {
 			st.srcAdr[fmt.Sprintf("callresult%d", i)] = false
 		}
 	}
+}
+
+func (v *Verifier) sigMentionsAbstract(fn *ssa.Function) bool {
+	if len(v.abstract) == 0 {
+		return false
+	}
+	var mentions func(t types.Type, depth int) bool
+	mentions = func(t types.Type, depth int) bool {
+		if depth > 4 {
+			return false
+		}
+		if v.isAbstract(t) {
+			return true
+		}
+		switch u := t.Underlying().(type) {
+		case *types.Pointer:
+			return mentions(u.Elem(), depth+1)
+		case *types.Slice:
+			return mentions(u.Elem(), depth+1)
+		case *types.Array:
+			return mentions(u.Elem(), depth+1)
+		case *types.Struct:
+			for i := 0; i < u.NumFields(); i++ {
+				if mentions(u.Field(i).Type(), depth+1) {
+					return true
+				}
+			}
+		}
+		return false
+	}
+	sig := fn.Signature
+	if r := sig.Recv(); r != nil && mentions(r.Type(), 0) {
+		return true
+	}
+	for i := 0; i < sig.Params().Len(); i++ {
+		if mentions(sig.Params().At(i).Type(), 0) {
+			return true
+		}
+	}
+	for i := 0; i < sig.Results().Len(); i++ {
+		if mentions(sig.Results().At(i).Type(), 0) {
+			return true
+		}
+	}
+	return false
 }
